@@ -72,6 +72,7 @@ def models(wd, tier, seed):
 FAM = dict(driver="routine", specdirs=["routine", "lib"], monitor="RoutinePTrace", property_of=PROPERTY_OF, models=models,
            n_random={"quick": 2000, "thorough": 150000},
            modes={"quick": [("seq", "seq", 1200), ("burst", "burst", 1500, 4)], "thorough": [("seq", "seq", 100000), ("burst", "burst", 200000, 4)]},
+           advisory=lambda wd, binp, seed, tier: x_conformance(wd, binp, seed, SCEN["quick"], nrand=40 if tier == "quick" else 1500),
            x_specs=["routine/Routine.tla"], p_monitor="routine/RoutineP.tla",
            assumptions=["RoutineP encodes the statements (DESIGN §3 C04/C05/C14 interpretation); exits overtaken by a superseding call before "
                         "they were recorded are not exit statuses; instances entering with a cancelled context are not judged by C14"])
@@ -79,3 +80,45 @@ FAM = dict(driver="routine", specdirs=["routine", "lib"], monitor="RoutinePTrace
 
 def run(prop, tier, seed):
     return vlib.standard_check(prop, tier, seed, FAM)
+
+
+# --------------------------------------------------------------------------- advisory X-level conformance
+
+def x_conformance(wd, binp, seed, names, nrand=100):
+    """Executions of each scenario (seeded random schedules, controller steps logged) replayed through
+    Routine.tla itself (RoutineXTrace.tla). Returns a summary; never a verdict."""
+    import subprocess, shutil
+    total = dict(traces=0, events=0, drift=0, samples=[])
+    for name in names:
+        sc = json.load(open(scen_path(name)))
+        dsc = {k: v for k, v in sc.items() if k not in ("maxg", "cap")}
+        scheds = [{"name": "%s/x%d" % (name, i), "scenario": dsc, "labels": []} for i in range(nrand)]
+        sf = os.path.join(wd, "x-%s-scheds.json" % name)
+        json.dump(scheds, open(sf, "w"))
+        tf = os.path.join(wd, "x-%s.ndjson" % name)
+        stf = os.path.join(wd, "x-%s.stats.json" % name)
+        p = subprocess.run([binp, "-test.run", "^TestRun$", "-driver", "routine", "-out", tf, "-stats", stf, "-sched", sf, "-seed", str(seed), "-logsteps"],
+                           cwd=wd, capture_output=True, text=True)
+        if p.returncode != 0:
+            total["samples"].append("%s: harness failed" % name)
+            continue
+        d = vlib.spec_scratch(wd, "x-" + name, ["routine", "lib"])
+        prog = [[dict(op=o["op"], c=o.get("c", 0), r=bool(o.get("r", False)), f=o.get("f", 0), s=o.get("s", 0), rin=bool(o.get("rin", False))) for o in cl] for cl in sc["clients"]]
+        consts = ["Prog <- ScProg", 'Variant = "%s"' % sc["variant"], "Retry = %s" % ("TRUE" if sc["retry"] else "FALSE"),
+                  "MaxG = 12", "MaxTicks = 99", "FixF2 = %s" % ("TRUE" if FIX_F2 else "FALSE"), "FixF14 = TRUE", "Eager = FALSE"]
+        vlib.write_mc(d, "MCX", "RoutineXTrace", ["ScProg == " + vlib.json2tla(prog)],
+                      ["INIT TInit", "NEXT TNext", "CHECK_DEADLOCK FALSE", "CONSTANTS"] + [" " + c for c in consts])
+        vf = os.path.join(d, "verdict.json")
+        r = vlib.run_tlc(d, "MCX", "MCX.cfg", workers=1, timeout=300,
+                         env={"TRACE_FILE": tf, "VERDICT_FILE": vf,
+                              "JAVA_TOOL_OPTIONS": "-DTLA-Library=%s -Xmx3g -Xss256m -Dtlc2.tool.impl.Tool.cdot=true" % vlib.TLA_LIB})
+        if not os.path.exists(vf):
+            total["samples"].append("%s: X-trace validation did not finish: %s %s" % (name, r["error"], r["out"][-400:]))
+            continue
+        v = json.load(open(vf))
+        total["traces"] += nrand
+        total["events"] += v["total"]
+        total["drift"] += len(v["drift"])
+        total["samples"] += ["%s: %s" % (name, json.dumps(x)) for x in v["drift"][:2]]
+        shutil.rmtree(d, ignore_errors=True)
+    return total
